@@ -1,5 +1,6 @@
 import SFV.Lemmas.TokenStore
 import SFV.Lemmas.PersistDeps
+import SFV.Lemmas.WorkflowStore
 import SFV.Gen.Persist
 /-! # C08 — saving then loading a workflow reproduces it exactly
 
@@ -82,8 +83,9 @@ example : (5, "late", true) ∉ (saveStep false (saveStep false ⟨false, []⟩ 
 saves DAG-shaped values concurrently to exercise it) -/
 theorem token_save_waits : SFV.Gen.tokenSaveWaits = true := by decide
 
-/-- **Token values round-trip** (`load_save_val`): for every well-formed token value — plain tokens, `ListToken`s and
-`ObjectToken`s nested to any depth, any tags, any `recoverable` flags — and every database state, `Token.save` followed by
+/-- **Token values round-trip** (`load_save_val`): for every well-formed token value — plain tokens (file tokens are plain
+tokens with a JSON document as value), `ListToken`s, `ObjectToken`s and `JobToken`s (a job with its input tokens) nested to any
+depth, any tags, any `recoverable` flags — and every database state, `Token.save` followed by
 `Token.load` of the returned id gives the same value back; in particular the same type, tag, members and the same
 (derived, for list/object tokens) recoverable flag. -/
 theorem load_save_val (t : Tok) (hw : Wf .tok t) (db : DB) (hok : Ok db) :
@@ -102,7 +104,70 @@ def exTok : Tok :=
   .list "0" (.cons (.obj "0.0" (.kcons "a" (.plain "0.0" 7 true) (.kcons "b" (.list "0.0" (.cons (.plain "0.0.0" 1 false) .nil)) .nil)))
             (.cons (.plain "0.1" 9 true) .nil))
 
+/-- a job token whose job has a list and a plain input -/
+def exJob : Tok :=
+  .job "0" 42 true (.kcons "in" (.list "0" (.cons (.plain "0.0" 1 false) .nil)) (.kcons "n" (.plain "0" 5 true) .nil))
+
+example : Wf .tok exJob := by simp [exJob, Wf]
+example : load 10 (save .tok exJob ⟨fun _ => none, 1⟩).1 4 = some exJob ∧ recoverable exJob = true := by decide +kernel
+
 example : Wf .tok exTok := by simp [exTok, Wf]
 example : load 10 (save .tok exTok ⟨fun _ => none, 1⟩).1 6 = some exTok ∧ recoverable exTok = false := by decide +kernel
+
+/-! ### the whole workflow (`SFV/Model/WorkflowStore.lean`) -/
+
+section WholeWorkflow
+open SFV.WfStore
+
+/-- **`load (save w) = w` for a whole workflow**: for every database state, every workflow that has not been saved yet, whose
+steps mention only ports of the workflow and are connected to a port at most once (the key of the `dependency` table):
+`Workflow.save` followed by `Workflow.load` of the returned id gives back the workflow — every port, every step with its params
+(port references resolved to the same ports), `input_ports` and `output_ports` — with the row ids `save` assigned as
+`persistent_id`s; erasing the ids gives the original. -/
+theorem load_save_workflow (db : WfStore.DB) (w : WF) (hdb : db.ok) (hf : w.fresh) (hw : w.wf) :
+    loadWf (saveWf db w).1 db.next = some (saveWf db w).2 ∧ (saveWf db w).2.pid = some db.next ∧ (saveWf db w).2.noIds = w := by
+  rw [saveWf_eq db w hdb hf hw]
+  exact ⟨loadWf_saved db w hdb hw, rfl, savedWF_noIds db w hf⟩
+
+/-- the database invariant is kept, so the theorem applies again to the next workflow saved into the same database -/
+theorem save_keeps_db_ok (db : WfStore.DB) (w : WF) (hdb : db.ok) (hf : w.fresh) (hw : w.wf) : (saveWf db w).1.ok := by
+  rw [saveWf_eq db w hdb hf hw]
+  exact savedDB_ok db w hdb
+
+/-- **The deep-copy builder reproduces the structure, with every step in its initial state, and carries no persistent id over.** -/
+theorem builder_copy_no_ids (db : WfStore.DB) (w : WF) (hdb : db.ok) (hf : w.fresh) (hw : w.wf) :
+    ∃ c, copyWf (saveWf db w).1 db.next = some c ∧ c = w.initial ∧
+      c.pid = none ∧ (∀ p ∈ c.ports, p.pid = none) ∧ (∀ s ∈ c.steps, s.pid = none) := by
+  obtain ⟨h1, _, h3⟩ := load_save_workflow db w hdb hf hw
+  refine ⟨w.initial, ?_, rfl, hf.1, hf.2.1, ?_⟩
+  · simp only [copyWf, h1, Option.map_some, h3]
+  · intro s hs
+    simp only [WF.initial, List.mem_map] at hs
+    obtain ⟨s0, hs0, rfl⟩ := hs
+    exact hf.2.2 s0 hs0
+
+def w0 : WF :=
+  { name := "wf", params := [("config", 7)],
+    ports := [⟨"in", "Port", [], none⟩, ⟨"jobs", "JobPort", [], none⟩, ⟨"out", "Port", [("p", 1)], none⟩],
+    steps := [⟨"sched", "ScheduleStep", 0, [("job_prefix", .plain 3)], [], [("__job__", "jobs")], none⟩,
+              ⟨"exec", "ExecuteStep", 4, [("job_port", .port "jobs")], [("x", "in"), ("__job__", "jobs")], [("y", "out")], none⟩],
+    pid := none }
+
+/-- not vacuous: a concrete workflow, saved after another one, round-trips with ids 6.. and the copy equals the original -/
+example :
+    let db := (saveWf WfStore.DB.empty w0).1
+    loadWf (saveWf db w0).1 db.next = some (saveWf db w0).2 ∧ copyWf (saveWf db w0).1 db.next = some w0.initial ∧
+      ((saveWf db w0).2.steps.map (·.pid)) = [some 11, some 12] := by
+  decide
+
+/-- the hypothesis is needed: a step connected to the same port as input AND output loses one of the two connections
+(`INSERT OR IGNORE`, key `(step, port)`) -/
+example :
+    let w1 : WF := { name := "wf", params := [], ports := [⟨"p", "Port", [], none⟩],
+                     steps := [⟨"s", "Step", 0, [], [("a", "p")], [("b", "p")], none⟩], pid := none }
+    copyWf (saveWf WfStore.DB.empty w1).1 1 ≠ some w1 := by
+  decide
+
+end WholeWorkflow
 
 end SFV.C08
